@@ -39,6 +39,8 @@ type scenario struct {
 	// their violations carry the scenario name in the signature and the property named here
 	only []string
 	prop string
+	also []string // further properties this directed scenario is evidence for (same signature)
+	noTimeout bool // server dispatcher configured without a request timeout (SetTimeout(0))
 	scale  int      // time unit = scale x 10 ms (default 1); directed scenarios use a coarser unit to be robust under load
 	stall  float64  // duration of the stall in time units (default 1.5)
 	sigs   []string // if set: only these kinds of log-check violations count for this scenario
@@ -159,7 +161,7 @@ var scenarios = []scenario{
 	// different clients, one slot; the queued requests of both (r3 for A, r4 for B) must be written afterwards
 	{name: "s-two-completions", server: true, clients: []string{"A", "B", "C"},
 		ops:   []scOp{{0, "send", "A"}, {0.05, "send", "B"}, {0.1, "send", "A"}, {0.15, "send", "B"}, {0.3, "send", "C"}},
-		reply: map[string]float64{"r1": 0.5, "r2": 0.5, "r3": 0.1, "r4": 0.1, "r5": 0.1}, end: 4.5, only: []string{"ws.Write>|3"}, prop: "C07", scale: 4, stall: 1.0,
+		reply: map[string]float64{"r1": 0.5, "r2": 0.5, "r3": 0.1, "r4": 0.1, "r5": 0.1}, end: 4.5, only: []string{"ws.Write>|3"}, prop: "C07", also: []string{"C11"}, scale: 4, stall: 1.0,
 		sigs: []string{"never-concluded"}},
 	// a ready token that arrives late: the pump is inside a slow Write for C while r1 (A) and r2 (B) are answered (two ready
 	// tokens, one slot), their contexts expire, and r4 is sent to A; whatever order the pump takes the waiting events in, r4
@@ -181,6 +183,19 @@ var scenarios = []scenario{
 		ops:   []scOp{{0, "send", "A"}, {0.1, "send", "A"}, {0.4, "disconnect", "A"}, {0.6, "connect", "A"}, {0.7, "send", "A"}, {0.8, "send", "A"}},
 		reply: map[string]float64{"r1": -1, "r3": 0.1, "r4": 0.1}, end: 5.0, only: []string{"queue.Peek<|1"}, prop: "C11", scale: 4,
 		sigs: []string{"never-concluded"}},
+	// a request of the old connection is dispatched into the new one (reconnect between the pump's queue lookup and the Peek, as
+	// in s-reconnect-orphan) and its write FAILS: the request cannot be completed through the new connection's queue; it must
+	// not stay pending, or nothing is sent to the client any more (r2, sent later, must be written and answered)
+	{name: "s-orphan-write-fails", server: true, clients: []string{"A"},
+		ops:   []scOp{{0, "send", "A"}, {0.4, "disconnect", "A"}, {0.5, "writefail-on", "A"}, {0.6, "connect", "A"}, {2.0, "writefail-off", "A"}, {2.2, "send", "A"}},
+		reply: map[string]float64{"r1": -1, "r2": 0.1}, end: 5.0, only: []string{"queue.Peek<|1"}, prop: "C11", scale: 4,
+		sigs: []string{"never-concluded"}},
+	// a server dispatcher without a request timeout (SetTimeout(0): no context is ever active, so only the pending mark keeps
+	// the pump from dispatching): r2 and r3 are accepted while r1 is outstanding; each CALL is written once, in order, one at a time
+	{name: "s-no-timeout", server: true, clients: []string{"A"}, noTimeout: true,
+		ops:   []scOp{{0, "send", "A"}, {0.2, "send", "A"}, {0.3, "send", "A"}},
+		reply: map[string]float64{"r1": 0.6, "r2": 0.2, "r3": 0.1}, end: 3.0, only: []string{"ws.Write>|1"}, prop: "C02", scale: 4, stall: 0.05,
+		sigs: []string{"two-outstanding", "written-twice", "write-order", "never-concluded"}},
 	{name: "s-two-clients", server: true, clients: []string{"A", "B"},
 		ops:   []scOp{{0, "send", "A"}, {0.05, "send", "B"}, {0.5, "send", "A"}, {0.55, "send", "B"}},
 		reply: map[string]float64{"r1": -1, "r2": 0.1, "r3": 0.1, "r4": 0.1}, end: 3.2},
@@ -315,6 +330,9 @@ func runScenario(sc scenario, stallSite string, stallIdx int) schedResult {
 		qm := &gQueueMap{m: map[string]ocppj.RequestQueue{}, cap: 0, l: l}
 		d := ocppj.NewDefaultServerDispatcher(qm)
 		d.SetTimeout(schedT)
+		if sc.noTimeout {
+			d.SetTimeout(0)
+		}
 		srv := ocppj.NewServer(fs, d, nil, core.Profile)
 		srv.SetDialect(ocpp.V16)
 		fs.onWrite = func(c string, data []byte) {
@@ -344,9 +362,28 @@ func runScenario(sc scenario, stallSite string, stallIdx int) schedResult {
 		}
 		send = func(c string) { _ = srv.SendRequest(c, core.NewClearCacheRequest()) }
 		deliver = func(c string, data []byte) { _ = fs.deliver(c, data) }
-		disconnect = func(c string) { l.add("disconnect", c, ""); fs.disconnect(c) }
-		connect = func(c string) { fs.connect(c); l.add("connect", c, "") }
-		setWF = func(on bool) {}
+		// scripted link events that find the link already in the state they ask for (the goroutine of an earlier scripted event
+		// was late under machine load) are skipped, as the real websocket server would not report them either
+		disconnect = func(c string) {
+			if fs.isConnected(c) {
+				l.add("disconnect", c, "")
+				fs.disconnect(c)
+			}
+		}
+		connect = func(c string) {
+			if fs.connectFresh(c) {
+				l.add("connect", c, "")
+			}
+		}
+		setWF = func(on bool) {
+			for _, c := range sc.clients {
+				if on {
+					fs.setWriteErr(c, fmt.Errorf("injected"))
+				} else {
+					fs.setWriteErr(c, nil)
+				}
+			}
+		}
 		stop = srv.Stop
 		idle = func() bool { return !srv.RequestState.HasPendingRequests() }
 	} else {
@@ -644,6 +681,13 @@ func init() {
 					v.Replay = map[string]interface{}{"scenario": scenarios[sc].name, "gate": f[1], "hit": f[2], "detail": v.Replay}
 					v.Sig = sig
 					rep.Violations = append(rep.Violations, v)
+					for _, a := range scenarios[sc].also {
+						if a != v.Property {
+							v2 := v
+							v2.Property = a
+							rep.Violations = append(rep.Violations, v2)
+						}
+					}
 				}
 			}
 		}
